@@ -48,6 +48,7 @@ class Oracle:
         vs = []
         if x.config.lang != 'java' or x.error is not None:
             return vs
+        fam = x.config.family_index() is not None
         for label, text in (('generated', x.T0), ('erased', x.T1)):
             if text is None:
                 continue
@@ -57,9 +58,16 @@ class Oracle:
                 continue
             verdict, errs, h = self._alone(text, label)
             if errs is None:
+                if fam and label == 'generated' and not verdict:
+                    break
                 continue
             if verdict:
                 self.good.append((h, text))
+            elif fam and label == 'generated':
+                # a hand-built family program outside what the Java translator's type hints cover (C02 is about
+                # generated programs): its erased form is not judged either
+                self.stats['family_baseline_rejected'] = self.stats.get('family_baseline_rejected', 0) + 1
+                break
             else:
                 d = errs[0]
                 vs.append({'rule': 'javac-rejects-%s-program' % label, 'site': 'javac',
@@ -164,8 +172,13 @@ def run(tier, seed, jobs):
     stats = {}
     samples = []
     plans = []
-    for configs, policies, bound, nslices, cast in plan(tier):
-        tot = explore.explore(configs, policies, bound, SPEC, {'cast_numbers': cast}, jobs, seed, nslices)
+    from mc import progfam
+    # hand-built family (mc/progfam.py): generated and erased form of every program (quick: the core subset)
+    fam = [(progfam.family_configs(('java',), 'all' if tier == 'thorough' else 'core'), ['first'], 0, 1, False, 40)]
+    for part in fam + plan(tier):
+        configs, policies, bound, nslices, cast = part[:5]
+        chunk = part[5] if len(part) > 5 else None
+        tot = explore.explore(configs, policies, bound, SPEC, {'cast_numbers': cast}, jobs, seed, nslices, chunk=chunk)
         execs += tot.execs
         trans += tot.transitions
         states |= tot.states
